@@ -349,7 +349,7 @@ impl Harness for C15 {
     fn plan(&self, tier: Tier, seed: u64) -> Plan {
         let t = tier.is_thorough();
         let mut jobs: Vec<Job> = Vec::new();
-        let cap: u64 = if t { 3_000_000 } else { 300_000 };
+        let cap: u64 = if t { 8_000_000 } else { 300_000 };
 
         // ---- length mismatch (one small job)
         jobs.push(Job::new("mismatch", json!({"kind": "mismatch"})));
@@ -416,10 +416,10 @@ impl Harness for C15 {
                 (3, 3, vec![0, 1, 3, 8]),
                 (3, 4, vec![0, 1, 2]),
                 (4, 3, vec![0, 1, 2]),
-                (2, 8, vec![0, 1, 2]),
-                (8, 2, vec![0, 1, 2]),
-                (3, 8, vec![0, 1]),
-                (8, 3, vec![0, 1]),
+                (2, 6, vec![0, 1, 2]),
+                (6, 2, vec![0, 1, 2]),
+                (3, 6, vec![0, 1]),
+                (6, 3, vec![0, 1]),
                 (4, 5, vec![0, 1]),
                 (5, 4, vec![0, 1]),
                 (2, 2, vec![0, 1, 2, 3, 5, 8, 13, 40]),
@@ -441,12 +441,12 @@ impl Harness for C15 {
 
         // ---- ROC-AUC
         // every score vector over {0,1/4,1/2,1} x every label vector
-        let q4_max = if t { 9 } else { 7 };
+        let q4_max = if t { 10 } else { 7 };
         for n in 2..=q4_max {
             push_split(&mut jobs, &format!("auc-q4-n{}", n), json!({"kind": "auc", "n": n, "alpha": 0, "seed": seed, "f32": n <= 6}), &[vec![4; n], vec![2; n]].concat(), cap);
         }
         // {0,1,2}: n >= 8 reaches the partition code of the sort
-        let t3_max = if t { 11 } else { 8 };
+        let t3_max = if t { 12 } else { 8 };
         for n in 8..=t3_max {
             push_split(&mut jobs, &format!("auc-t3-n{}", n), json!({"kind": "auc", "n": n, "alpha": 1, "seed": seed, "f32": n <= 8}), &[vec![3; n], vec![2; n]].concat(), cap);
         }
